@@ -4,6 +4,7 @@ import LlgVerif.Model.Trie
 import LlgVerif.Model.Cache
 import LlgVerif.Spec.Regex
 import LlgVerif.Model.Repeat
+import LlgVerif.Model.Engine
 import Driver.Util
 open LlgVerif Drv
 
@@ -21,6 +22,9 @@ structure St where
   rbVocab : List (Nat × List UInt8) := []
   rbEos : List Nat := []
   rxs : List (Nat × LlgVerif.Dfa) := []
+  engCfg : Option (EngCfg Nat) := none
+  engSt : EngState Nat := { st := 0, tokens := [], stopped := false }
+  engHist : List (EngState Nat) := []
 
 /-- DFA over byte classes: `cls[b]` in `0..k`, `trans[q*k + c]` = successor, `≥ n` = dead. -/
 structure TDfa where
@@ -240,6 +244,44 @@ def handleRep (args : List String) : String :=
     | _, _, _ => "bad-op"
   | _ => "bad-op"
 
+/-- recogniser of a checked regex certificate: a byte is viable iff the successor state is live -/
+def dfaRec (d : LlgVerif.Dfa) : Rec Nat where
+  step := fun q b => let q' := d.next q b; if d.live[q']! then some q' else none
+
+/-- abstract engine (M6) over a regex certificate: `init rxid words eos`, `mask`, `commit t`,
+    `validate ts`, `acc` -/
+def handleEng (st : St) (args : List String) : St × String :=
+  match args with
+  | ["init", id, ws, eos] =>
+    match parseNat? id, parseHexList? ws, parseNat? eos with
+    | some id, some ws, some eos =>
+      match st.rxs.find? (·.1 = id) with
+      | some (_, d) =>
+        let cfg : EngCfg Nat := { recog := dfaRec d, accepting := fun q => d.acc[q]!, words := ws, eos := eos }
+        ({ st with engCfg := some cfg, engSt := { st := 0, tokens := [], stopped := false }, engHist := [] }, "ok")
+      | none => (st, "no-such-rx")
+    | _, _, _ => (st, "bad-op")
+  | ["mask"] =>
+    match st.engCfg with
+    | some c => (st, s!"ok {showNatList (canonSet (c.mask st.engSt))}")
+    | none => (st, "no-engine")
+  | ["acc"] =>
+    match st.engCfg with
+    | some c => (st, s!"ok {showBool (c.accepting st.engSt.st)}")
+    | none => (st, "no-engine")
+  | ["commit", t] =>
+    match st.engCfg, parseNat? t with
+    | some c, some t =>
+      match c.commit st.engSt t with
+      | some s' => ({ st with engSt := s', engHist := st.engSt :: st.engHist }, "ok")
+      | none => (st, "err")
+    | _, _ => (st, "bad-op")
+  | ["validate", ts] =>
+    match st.engCfg, parseNatList? ts with
+    | some c, some ts => (st, s!"ok {c.validate st.engSt ts}")
+    | _, _ => (st, "bad-op")
+  | _ => (st, "bad-op")
+
 def handleTrie (st : St) (args : List String) : St × String :=
   match args with
   | ["build", ws] =>
@@ -295,6 +337,7 @@ def step (st : St) (line : String) : St × String :=
   | "cache" :: args => handleCache st args
   | "rx" :: args => handleRx st args
   | "rep" :: args => (st, handleRep args)
+  | "eng" :: args => handleEng st args
   | "rb" :: args => handleRb st args
   | ["reset"] => ({}, "ok")
   | _ => (st, "bad-op")
